@@ -48,6 +48,9 @@ func init() {
 			if strings.Contains(caseDesc, "probe:composition-dag-exponential") {
 				return map[string]string{"probe": "composition-dag-exponential"}
 			}
+			if strings.Contains(caseDesc, "probe:deep-nesting-quadratic-load") {
+				return map[string]string{"probe": "deep-nesting-quadratic-load"}
+			}
 			return nil
 		},
 		Replay:         replayC20,
@@ -78,7 +81,6 @@ func runC20(c *core.Ctx) {
 			c20Files(c)
 		} else if j := i - len(probes) - 1; j < len(hangs) {
 			in := hangs[j]
-			in.origin = "probe:composition-dag-exponential " + in.origin
 			c.Cover("probes", in.origin)
 			c20Run(c, in)
 		}
